@@ -169,12 +169,22 @@ def affix_strip_misuse(node: ast.AST) -> list[ast.Call]:
 
 
 def split_join_mismatch(node: ast.AST) -> list[tuple[ast.Call, str]]:
-    """``SEP.join(x.split(OTHER)...)`` with OTHER != SEP (or a bare ``split()``) re-flows text."""
+    """``SEP.join(x.split(OTHER)...)`` with OTHER != SEP (or a bare ``split()``) re-flows text.
+    Names assigned exactly once from a ``split`` call are looked through."""
     out = []
+    split_defs: dict[str, list[ast.Call]] = {}
+    for a in ast.walk(node):
+        if isinstance(a, ast.Assign) and len(a.targets) == 1 and isinstance(a.targets[0], ast.Name) and isinstance(a.value, ast.Call) \
+                and isinstance(a.value.func, ast.Attribute) and a.value.func.attr in ("split", "splitlines"):
+            split_defs.setdefault(a.targets[0].id, []).append(a.value)
     for n in ast.walk(node):
         if isinstance(n, ast.Call) and isinstance(n.func, ast.Attribute) and n.func.attr == "join" and isinstance(n.func.value, ast.Constant) and n.args:
             sep = n.func.value.value
-            for s in ast.walk(n.args[0]):
+            cands = list(ast.walk(n.args[0]))
+            for nm in [x for x in cands if isinstance(x, ast.Name)]:
+                if len(split_defs.get(nm.id, [])) == 1:
+                    cands.append(split_defs[nm.id][0])
+            for s in cands:
                 if isinstance(s, ast.Call) and isinstance(s.func, ast.Attribute) and s.func.attr == "split":
                     if not s.args:
                         out.append((n, f"{sep!r}.join(... .split()) collapses every run of whitespace (including newlines)"))
@@ -183,3 +193,8 @@ def split_join_mismatch(node: ast.AST) -> list[tuple[ast.Call, str]]:
                 elif isinstance(s, ast.Call) and isinstance(s.func, ast.Attribute) and s.func.attr == "splitlines":
                     out.append((n, f"{sep!r}.join(... .splitlines()) splits on more than '\\n'"))
     return out
+
+
+def ambiguous_year_formats(node: ast.AST) -> list[ast.Constant]:
+    """strptime/strftime formats containing %y: two-digit years 69-99 are read as 19xx."""
+    return [c for c in ast.walk(node) if isinstance(c, ast.Constant) and isinstance(c.value, str) and "%y" in c.value]
